@@ -798,7 +798,14 @@ def cmd_baseline(a):
     os.makedirs(BASE, exist_ok=True)
     units = a.units or sorted(d for d in os.listdir(UNITS) if os.path.isfile(os.path.join(UNITS, d, "unit.rs")))
     for u in units:
+        bf = os.path.join(BASE, f"{u}.json")
+        if getattr(a, "force", False) and os.path.isfile(bf):
+            os.remove(bf)          # a deliberate change of the template (fewer functions) needs the old baseline out of the way
         r = process_unit(u, "quick")
+        known_all = {k["obligation"] for k in load_known().get("findings", [])}
+        ids = {obligation_id(u, f) for f in r.failures}
+        if r.status == "violation" and ids and ids <= known_all:
+            r.status = "ok"        # the only failing obligations are recorded findings: the baseline describes this tree
         if r.status != "ok":
             print(f"{u}: NOT written ({r.status}: {r.reason} {[obligation_id(u, f) for f in r.failures][:3]})")
             continue
@@ -850,7 +857,7 @@ def main():
     sp = ap.add_subparsers(dest="cmd", required=True)
     p = sp.add_parser("run"); p.add_argument("prop"); p.add_argument("--tier")
     p = sp.add_parser("unit"); p.add_argument("unit"); p.add_argument("--tier"); p.add_argument("--keep", action="store_true")
-    p = sp.add_parser("baseline"); p.add_argument("units", nargs="*")
+    p = sp.add_parser("baseline"); p.add_argument("units", nargs="*"); p.add_argument("--force", action="store_true")
     p = sp.add_parser("diff"); p.add_argument("unit")
     p = sp.add_parser("replay"); p.add_argument("path")
     p = sp.add_parser("selftest")
